@@ -226,6 +226,8 @@ impl Driver {
     unsafe fn submit_front(&mut self, key: ErasedKey, arg: WaitArg) -> io::Result<()> {
         let need_add = !self.registry.contains_key(&arg.fd);
         let queue = self.registry.entry(arg.fd).or_default();
+        #[cfg(compio_verif)]
+        compio_log::verif::point("poll.submit", key.as_raw() as u64, arg.fd as u64);
         queue.push_front_interest(key, arg.interest);
         let event = queue.event();
         if need_add {
@@ -553,6 +555,8 @@ impl Drop for Driver {
                 self.poller().delete(fd).ok();
             }
         }
+        #[cfg(compio_verif)]
+        compio_log::verif::point("poll.dropped", 0, 0);
     }
 }
 
